@@ -76,6 +76,12 @@ fn main() {
             }
             c20::child(pos[0].parse().unwrap_or(3), &pos[1])
         }
+        "c20-one" => {
+            if pos.len() < 3 {
+                usage();
+            }
+            c20::one_case(pos[0].parse().unwrap_or(3), pos[1].parse().unwrap_or(0), pos[2] == "1")
+        }
         "bench" => {
             use ax_x86::axecutor::Axecutor;
             // 67 8b 03 = mov eax,[ebx] (panics on the pinned tree); 8b 03 = mov eax,[rbx]
